@@ -649,9 +649,9 @@ pub fn specs(thorough: bool, seed: u64) -> Vec<ModuleSpec> {
     h4(&mut out, thorough);
     h5(&mut out, thorough);
     // the quick tier's random extension is pinned; the thorough one follows VERIF_SEED
-    random(&mut out, if thorough { 60 } else { 16 }, 1);
+    random(&mut out, if thorough { 80 } else { 16 }, 1);
     if thorough {
-        random(&mut out, 240, seed.wrapping_add(1000));
+        random(&mut out, 600, seed.wrapping_add(1000));
     }
     out
 }
